@@ -124,12 +124,17 @@ func (m Money) real(k int64) *big.Int {
 }
 
 // abs divides by the unit; ok=false when it does not divide or does not fit.
-func (m Money) abs(v *big.Int) (int64, bool) {
+func (m Money) abs(v *big.Int) (k int64, ok bool) {
+	defer func() {
+		if recover() != nil { // a value math/big cannot compute with (see bigStr)
+			k, ok = badAmount, false
+		}
+	}()
 	q, r := new(big.Int).QuoRem(v, m.unit, new(big.Int))
 	if r.Sign() != 0 || !q.IsInt64() {
 		return badAmount, false
 	}
-	k := q.Int64()
+	k = q.Int64()
 	if k > 2000000000 || k < -2000000000 {
 		return badAmount, false
 	}
@@ -271,4 +276,15 @@ func errClass(err error) string {
 		return ""
 	}
 	return err.Error()
+}
+
+// bigStr prints an amount the code under test handed out; a value math/big itself cannot print (an
+// inconsistent big.Int, e.g. after its digits were overwritten through shared storage) is reported as such.
+func bigStr(v *big.Int) (s string) {
+	defer func() {
+		if recover() != nil {
+			s = "<corrupt big.Int>"
+		}
+	}()
+	return v.String()
 }
